@@ -253,7 +253,7 @@ fn sites_for(t: &[f64], k: usize, r: &mut Rng) -> (Vec<f64>, usize, usize) {
 
 pub fn gen_c15<W: Write>(out: &mut W, thorough: bool, seed: u64) {
     let mut r = Rng::new(seed ^ 0xC15);
-    let n_spl = if thorough { 20000 } else { 300 };
+    let n_spl = if thorough { 2500 } else { 300 };
     let mut count = 0;
     while count < n_spl {
         let k = r.range(2, 6) as usize;
